@@ -35,6 +35,9 @@ CONSTANTS
   Bug_NoBlockCrc,          \* table blocks are not verified
   Bug_ManifestSkipsDamaged,\* damaged manifest records are skipped like WAL records
   Bug_SpliceFragments,     \* an unfinished record is spliced with the next one
+  Bug_OrphanNotNoticed,    \* a fragment that continues no record (type byte of a record in the
+                           \* middle of the file turned into Middle / Last) is dropped WITHOUT
+                           \* being counted as damage: the manifest reader goes on without the edit
   \* which fields the check may damage (the registered configuration excludes the header
   \* fields of the last record, which are reported as known findings)
   ExcludeTailHeader
@@ -86,7 +89,8 @@ Delivered(n, u, fate) ==
   CASE fate = "ok" -> [ids |-> 1..n, noticed |-> FALSE, garbage |-> FALSE]
     [] fate = "eof" -> [ids |-> 1..(u - 1), noticed |-> FALSE, garbage |-> FALSE]
     [] fate = "spliced" -> [ids |-> (1..n) \ {u}, noticed |-> FALSE, garbage |-> TRUE]
-    [] OTHER -> [ids |-> (1..n) \ {u}, noticed |-> TRUE, garbage |-> FALSE]
+    [] OTHER -> [ids |-> (1..n) \ {u}, noticed |-> ~(Bug_OrphanNotNoticed /\ fate = "droppedmid"),
+                 garbage |-> FALSE]
 
 ---------------------------------------------------------------------------
 (* the store served after opening the image: "error" or the set of batches.  Edit e (manifest
